@@ -413,6 +413,19 @@ def lcm(a, b):
     return a * b // gcd(a, b)
 
 
+def encodable(x):
+    """every integer of a JSON-able record fits TLC's 32-bit integers"""
+    if isinstance(x, bool):
+        return True
+    if isinstance(x, int):
+        return abs(x) < (1 << 31)
+    if isinstance(x, (list, tuple)):
+        return all(encodable(y) for y in x)
+    if isinstance(x, dict):
+        return all(encodable(y) for y in x.values())
+    return True
+
+
 def lcmden(vals):
     return reduce(lcm, [F(v).denominator for v in vals], 1)
 
@@ -619,6 +632,13 @@ def m3(ctx, al, count):
         except Exception as ex:
             ctx.count(1)
             ctx.violation("C07:%s-raises" % op, dict(info, raised="%s: %s" % (type(ex).__name__, str(ex)[:160])))
+            continue
+        if not encodable(rec):
+            # the operands were screened so that every value the specification can give stays below 2^28:
+            # a logged number beyond 31 bits cannot be one of them (and JSON would mangle it)
+            ctx.count(1)
+            ctx.violation("C07:%s:magnitude" % op, dict(info, why="observed value outside the range of every specified "
+                                                                   "value for these operands", record=str(rec)[:400]))
             continue
         recs.append(rec)
         meta.append(info)
